@@ -19,7 +19,7 @@ from concurrent.futures import ThreadPoolExecutor
 
 import vlib
 
-CHUNK_LINES = 25000
+CHUNK_LINES = 20000
 
 
 def model_check(c):
@@ -134,13 +134,17 @@ def run_lines(path, scen, crash):
 
 
 def run(c):
-    mc = model_check(c)
+    with ThreadPoolExecutor(max_workers=2) as ex:
+        fmc = ex.submit(model_check, c)
+        fen = ex.submit(enumerate_histories, c)
+        c.harness()
+        files = fen.result()
+        mc = fmc.result()
     c.log("protocol model checking: pool %d states, flagged %d states; pre-repair orders violate CrashConsistent in the model" % (
         mc["pool"].distinct, mc["flagged"].distinct))
     c.guard("model_prerepair_pool_violates", 1)
     c.guard("model_prerepair_flagged_violates", 1)
 
-    files = enumerate_histories(c)
     rnd = random.Random(c.seed)
     scen_path = c.path("scenarios.ndjson")
     scenarios = []
@@ -150,7 +154,7 @@ def run(c):
         with open(path) as f:
             lines = [l for l in f if l.strip()]
         enumerated[comp] = dict(cfg=cfg, histories=len(lines))
-        limit = c.pick(dict(pool=1200, flagged=1300), dict(pool=14000, flagged=9000))[comp]
+        limit = c.pick(dict(pool=600, flagged=800), dict(pool=9000, flagged=8000))[comp]
         if len(lines) > limit:
             lines = rnd.sample(lines, limit)
             enumerated[comp]["sampled"] = limit
@@ -182,8 +186,12 @@ def run(c):
                     if '"last":"none"' not in line:
                         distinct.add(hash((comp, re.sub(r'"k":\d+,', "", "".join(cur)))))
     results = {}
-    for comp, module in (("pool", "SyncedPoolTrace"), ("flagged", "FlaggedTrace")):
-        lines, bad, nonconf, pieces = validate(c, module, traces[comp], workers=6)
+    with ThreadPoolExecutor(max_workers=2) as ex:
+        vfut = {comp: ex.submit(validate, c, module, traces[comp], 3)
+                for comp, module in (("pool", "SyncedPoolTrace"), ("flagged", "FlaggedTrace"))}
+        vres = {comp: f.result() for comp, f in vfut.items()}
+    for comp in ("pool", "flagged"):
+        lines, bad, nonconf, pieces = vres[comp]
         results[comp] = dict(trace_lines=lines, tlc_runs=pieces, inconsistent_runs=len(bad), runs_outside_protocol=nonconf)
         c.log("%s: %d trace lines validated in %d TLC runs, %d inconsistent restarts, %d runs outside the protocol order" % (
             comp, lines, pieces, len(bad), nonconf))
